@@ -578,7 +578,19 @@ def check(ctx):
     derived = [im for im in prog.impls if (im.get("self_adt") or "").endswith("::EntityReactionType") and (im.get("trait") or "").endswith("cmp::PartialEq")]
     ctx.check(len(derived) == 1 and derived[0]["derived"], "C01.c", "EntityReactionType:derived-PartialEq", "",
               "PartialEq of EntityReactionType is derived (compares variant and payload)", "EntityReactionType has a hand-written PartialEq")
-    ctx.check(bool(cnt.calls_named(lambda n: n == it.path)) and bool(cnt.calls_named(lambda n: lib.tail(n, 1) == "count")), "C01.c",
+    via_iter = bool(cnt.calls_named(lambda n: n == it.path)) and bool(cnt.calls_named(lambda n: lib.tail(n, 1) == "count"))
+    if not via_iter and cnt.calls_named(lambda n: lib.tail(n, 1) == "count"):
+        # counted directly with a filter of its own: the filter must be the same test as iter_rtype's (an entry is counted
+        # only where the whole reaction type compared equal with the requested one)
+        for c in prog.closures_of(cnt):
+            whole_c = {b for (b, t, fr, is_eq) in lib.comparison_calls(c) if any(a.endswith("EntityReactionType") for a in fr.get("args", []))
+                       and any(o[0] == "arg" and o[1] == 1 for o in origins(c, t["args"][0]) | origins(c, t["args"][1]))
+                       and any(o[0] == "arg" and o[1] == 2 for o in origins(c, t["args"][0]) | origins(c, t["args"][1]))}
+            reqs_c = lib.true_return_requirements(c) if c.local_ty(0) == "bool" else None
+            if whole_c and reqs_c and all(any(r.get(b) is True for b in whole_c) for r in reqs_c) \
+                    and any(lib.tail(n, 1) == "filter" for _, _, n, _ in lib.field_method_calls(cnt, "EntityReactors", "reactors")):
+                via_iter = True
+    ctx.check(via_iter, "C01.c",
               "EntityReactors::count:defined-through-iter_rtype", "%s:%d" % (cnt.file, cnt.line), "count == iter_rtype().count()",
               "EntityReactors::count is not defined through iter_rtype (count and dispatch could disagree)")
 
